@@ -38,7 +38,11 @@ func c03Patches(r *fw.Rand) ([]interface{}, string) {
 	for i := 0; i < n; i++ {
 		var p map[string]interface{}
 		if r.Chance(1, 4) {
-			p = gen.PJSON(map[string]interface{}{"op": "add", "path": "/" + fw.Pick(r, []string{"foo", "bar", "meta"}), "value": gen.RandJSONValue(r, 2)})
+			val := gen.RandJSONValue(r, 2)
+			if r.Chance(1, 3) {
+				val = map[string]interface{}{"n": gen.RandDouble(r), "s": gen.RandString(r, 6)}
+			}
+			p = gen.PJSON(map[string]interface{}{"op": "add", "path": "/" + fw.Pick(r, []string{"foo", "bar", "meta"}), "value": val})
 		} else {
 			p = gen.RandSimplePatch(r)
 		}
@@ -67,7 +71,11 @@ func c03Case(c *fw.Case) {
 	case 1:
 		spec.AnchorOrigin, aoKind = fmt.Sprintf("https://anchor%d.example", r.Intn(100)), "string"
 	case 2:
-		spec.AnchorOrigin, aoKind = map[string]interface{}{"domain": "anchor.example", "weight": r.Intn(5)}, "object"
+		// numbers of every size class: the DID must be the hash of the CANONICAL suffix data, whatever the spelling
+		spec.AnchorOrigin, aoKind = map[string]interface{}{"domain": "anchor.example", "weight": r.Intn(5),
+			"big":   fw.Pick(r, []interface{}{float64(1 << 62), 9223372036854775808.0, 18446744073709551615.0, 1e19, 1e20, 123456789012345680000.0, 1e21, 1e22, 4.5, 1e-7}),
+			"rand":  gen.RandDouble(r),
+			"limit": float64(int64(1)<<53) + float64(r.Intn(3))}, "object"
 	}
 	if r.Chance(1, 3) {
 		spec.CreateType = "t" + fmt.Sprint(r.Intn(99))
